@@ -328,7 +328,9 @@ func (c *Checker) manyWarriors(M uint64, n int) {
 				}
 			}
 			if _, own := sr.GetMemState(g.Address(off)); own != i {
-				c.fail("C15", "many-warriors", b, func() string { return fmt.Sprintf("after the spawn of warrior %d at %d the recorder shows owner %d", i, off, own) })
+				c.fail("C15", "many-warriors", b, func() string {
+					return fmt.Sprintf("after the spawn of warrior %d at %d the recorder shows owner %d", i, off, own)
+				})
 			}
 		}
 		lis.reps = lis.reps[:0]
@@ -338,7 +340,9 @@ func (c *Checker) manyWarriors(M uint64, n int) {
 		rep.Traces++
 		// one task per spawned warrior, in index order; each imp writes the next cell and moves there
 		if len(lis.tasks) != len(picks) {
-			c.fail("C15", "many-warriors", b, func() string { return fmt.Sprintf("%d warriors were spawned, %d tasks were reported", len(picks), len(lis.tasks)) })
+			c.fail("C15", "many-warriors", b, func() string {
+				return fmt.Sprintf("%d warriors were spawned, %d tasks were reported", len(picks), len(lis.tasks))
+			})
 			return
 		}
 		for k, i := range picks {
